@@ -2,13 +2,22 @@ CP = 'xenium/reclamation/detail/concurrent_ptr.hpp'
 MO = [(r'std::memory_order_', 'mo_')]
 def K(name, regex): return dict(name=name, file=CP, regex=regex, subst=MO)
 EXP = [(r'\bexpected\b', '(*expected_p)', 'expected_ref')]
-A3 = r'\(marked_ptr& expected,\s*marked_ptr desired,\s*std::memory_order order = std::memory_order_\w+\)'
-A4 = r'\(marked_ptr& expected,\s*marked_ptr desired,\s*std::memory_order success,\s*std::memory_order failure\)'
-D3 = r'\(marked_ptr& expected,\s*marked_ptr desired,\s*std::memory_order order = (std::memory_order_\w+)\)'
+A3 = r'\(marked_ptr\s*&?\s*expected,\s*marked_ptr desired,\s*std::memory_order order = std::memory_order_\w+\)'
+A4 = r'\(marked_ptr\s*&?\s*expected,\s*marked_ptr desired,\s*std::memory_order success,\s*std::memory_order failure\)'
+D3 = r'\(marked_ptr\s*&?\s*expected,\s*marked_ptr desired,\s*std::memory_order order = (std::memory_order_\w+)\)'
 
+def byval(s, lw):
+    # `expected` is a reference parameter in the pinned text (c_sig: pointer to the caller's object).  If the current text takes it BY VALUE the function works on a
+    # private copy: the lowering says exactly that, and the contract (failure reloads the CALLER's expected) decides
+    if not re.search(r'marked_ptr\s*&\s*expected', lw.spec.get('_cxx_head', 'marked_ptr& expected')):
+        lw.fire('expected_by_value')
+        k = s.index('{'); e = s.rindex('}')
+        return s[:k] + '{ mptr xv_byval_expected = (*expected_p); { mptr* expected_p = &xv_byval_expected; ' + s[k:e + 1] + ' } }'
+    return s
+import re
 def CAS(id, name, args, which, rule):
     c_args = 'int order' if args is A3 else 'int success, int failure'
-    return dict(id=id, file=CP, sig=r'bool ' + name + args, which=which, members=['_ptr'], subst=EXP,
+    return dict(id=id, file=CP, sig=r'bool ' + name + args, which=which, members=['_ptr'], subst=EXP, py_post=byval,
                 c_sig='static _Bool cp_%s(struct cptr* self, mptr* expected_p, mptr desired, %s)' % (id, c_args),
                 must_fire={'subst:expected_ref': 1, 'member:_ptr': 1})   # weak/strong is decided by the obligation (ev_weak), not by the rule count
 
